@@ -117,6 +117,11 @@ def MemchrOk (memchr : UInt8 → Slice → M (Option Nat)) (K : Nat) : Prop :=
     ∃ c', memchr b s c = .ok (Spec.firstIdx (· == b) s.toList) c' ∧
       c'.steps ≤ c.steps + scanned (Spec.firstIdx (· == b) s.toList) s.len + K
 
+/-- The simplest `memchr` satisfying `MemchrOk` (with `K = 0`): the specification itself, at no
+cost.  Used by the driver until the real dispatch model is plugged in. -/
+def specMemchr (b : UInt8) (s : Slice) : M (Option Nat) :=
+  pure (Spec.firstIdx (· == b) s.toList)
+
 /-- The `loop { .. }` of `find_prefilter`; `i` is the loop variable.  `&haystack[i..]` panics
 when `i > haystack.len()`; the check is the `if` so that termination is visible (`i` grows by
 at least one per iteration).  `usize` is unbounded, so `i += ..`, `i += 1` cannot overflow
